@@ -2,6 +2,7 @@
 from ..rules import liveness as L
 from ..rules import shutdown as S
 from ..rules import timeouts as T
+from ..rules import scenario as SC
 
 EXPLANATION = (
     "Static analysis. Decides on the worker's CFG that a timeout exit is only possible through a successful NON-blocking "
@@ -25,5 +26,7 @@ def run(e, R, tier):
         T.r_spawn_site,
         L.r_nulled,
         L.r_mgr_self,
+        SC.r_scn_worker,
+        SC.r_scn_result,
     ])
     R.trust("queue get(timeout) raises Empty on timeout; Lock.acquire(block=False) never blocks")
